@@ -203,11 +203,14 @@ def run_orphans(wd, clean=False):
 
 def build_job(op, env):
     import universe.g as U
-    cls = U.JobOut if op.get("cls") == "jobout" else U.Job
+    cls = {"jobout": U.JobOut, "jobx": U.JobX}.get(op.get("cls"), U.Job)
     kw = {"x": op["x"], "code": op.get("code", 0)}
     pre, init, explicit = [], [], []
     for dep, via in op.get("deps", []):
         up = env["vars"][dep]
+        if via.endswith("-task"):
+            # the task object itself (not the output returned by its submission) of a task that defines task_outputs
+            up, via = env["jobs"][dep], via[:-5]
         if via == "up":
             kw["up"] = up
         elif via == "ups":
